@@ -171,6 +171,19 @@ CLAIMED = {
          'the whitening matrix is assumed symmetric PSD in the theorems; BFGS fitters are only bounded by the proven optimum; ridge '
          'weight is 0 throughout (as the property states).',
          'DESIGN.md section 7, C08'),
+    'C06': ('Coq proofs over R: range / symmetry / unit diagonal / monotonicity of the t-test p-values for any symmetric distribution '
+         'function; difference variance = contrast of the covariance; fixed evaluation = classical one-sample / paired t; dual-bootstrap '
+         'bounds; bootstrap p ranges; equivariance + in-Coq correspondence of extract_variances, Result means / SEM / tests',
+         'Theorems: 0 <= p <= 1, p(i,j) = p(j,i), p(i,i) = 1, a larger (absolute) effect at equal variance never has a larger p, for every '
+         'monotone symmetric cdf; contrast variance = var_i + var_j - 2 cov_ij; n/(n-1) * cov0/n = s^2/n and the paired-difference analogue '
+         '(so the fixed-evaluation t statistics are the classical ones); dual(v0,v1,v2) <= v0 and >= each corrected single-factor variance that '
+         'is <= v0; sem >= 0; permuting models permutes model and difference variances; bootstrap p in (0,1] / [1/N,1]. Correspondence '
+         '(exact Q, in Coq): extract_variances for scalar / vector / matrix / 3-stack inputs with and without noise-ceiling rows and every '
+         'n_rdm / n_pattern combination; Result.get_means / get_sem for 2-5 dimensional evaluations with NaN samples; t statistics recovered '
+         'from the reported p-values; bootstrap pair / zero / noise-ceiling p-values; eval_fixed against the classical formulas.',
+         "Student's t cdf is abstract in the theorems (scipy computes it); rank-sum tests are supporting tests only; get_ci / errorbars not "
+         'modelled.',
+         'DESIGN.md section 7, C06'),
 }
 NA_REASON = 'check not built yet in this round (work in progress; see DESIGN.md section 7)'
 
